@@ -382,6 +382,13 @@ func init() {
 			p.Cfg = genConfig(r, pf)
 			ops := genHistory(r, pf, &p.Cfg)
 			for i := range ops {
+				// keep most histories away from a stored size of 0 (finding F2 makes every later probe fail there)
+				if ops[i].K == "update" && ops[i].Sz == "" && !r.Chance(0.03) {
+					ops[i].Sz = "rel1"
+				}
+				if ops[i].K == "update" && (ops[i].Sz == "abs" || ops[i].Sz == "back") && !r.Chance(0.1) {
+					ops[i].Sz = "rel1"
+				}
 				if ops[i].K == "update" && ops[i].M == "xsig_unknown" {
 					ops[i].MV = uint64(Pick(r, 1, 2, 5, 20, 50, 90, 96, 97, 98, 120))
 				}
